@@ -1,6 +1,7 @@
 (* Properties_C20.v — C20: every failure surfaces as a catchable exception: no terminate, no leak.
    Statements only.  The propagation logic is proved for every program of the Exn language (InvSpec.v); the two
-   library scopes whose destructors throw are modelled (InvModel.v) and shown to violate the property (F17, F18);
+   library scopes whose destructors call throwing code are modelled (InvModel.v): the CSV one violates the property (F18),
+   the MsgPack one did (F17) and satisfies it at full strength since its repair;
    the regenerated destructor inventory (coq/InvGenerated.v) pins the set of destructors that can throw.
    Allocation failure, stream faults, leaks: observed by harness/drv_fault.cpp, not proved. *)
 From Coq Require Import NArith String List Bool.
@@ -37,12 +38,10 @@ Theorem T_C20_throwing_dtor_normal_exit : forall (St E : Type) (body : prog St E
 Proof. exact throwing_dtor_terminates_normal. Qed.
 Print Assumptions T_C20_throwing_dtor_normal_exit.
 
-(* the property is FALSE of the library as it is.  F17: truncated MsgPack map (81): the body throws
-   ParsingException, ~CMsgPackReadObjectScope throws again while skipping the unread member.
-   F18: CSV row narrower than the first: ~CCsvWriteObjectScope -> NextLine throws on the normal path. *)
-Theorem T_C20_dtor_terminates_refuted :
-  (throws mp_load_map (mp_init [0x81%N]) EParse /\ mp_run [0x81%N] = Terminate) /\ csv_run [2; 1] = Terminate.
-Proof. exact (conj mp_truncated_map_terminates csv_short_row_terminates). Qed.
+(* the property is FALSE of the library as it is.  F18: CSV row narrower than the first: the width check lives in
+   NextLine, which only ~CCsvWriteObjectScope calls: the SerializationException leaves a destructor on the normal path *)
+Theorem T_C20_dtor_terminates_refuted : csv_run [2; 1] = Terminate.
+Proof. exact csv_short_row_terminates. Qed.
 Print Assumptions T_C20_dtor_terminates_refuted.
 
 (* CSV, both sides: the row-width error never reaches the caller as an exception, and the save terminates the
@@ -73,20 +72,32 @@ Example T_C20_msgpack_complete_doc_example :
 Proof. exact mp_complete_doc_example. Qed.
 Print Assumptions T_C20_msgpack_complete_doc_example.
 
-(* MsgPack: with the scope destructor made non-throwing (errors of the clean-up skip swallowed) every failure of
-   every input is an exception, and it is the exception the body threw *)
-Theorem T_C20_msgpack_repaired_never_terminates : forall inp, exec mp_load_map_repaired (mp_init inp) <> Terminate.
-Proof. exact mp_repaired_never_terminates. Qed.
-Print Assumptions T_C20_msgpack_repaired_never_terminates.
+(* MsgPack map load (memory reader), full strength since /repo commits 0863f96 + 3580349 repaired F17: for EVERY input
+   the process is never terminated, and an exception thrown by any step reaches the caller as that exception *)
+Theorem T_C20_msgpack_never_terminates : forall inp, mp_run inp <> Terminate.
+Proof. exact mp_never_terminates. Qed.
+Print Assumptions T_C20_msgpack_never_terminates.
 
-Theorem T_C20_msgpack_repaired_propagates : forall inp e,
-  throws mp_load_map_repaired (mp_init inp) e -> exists s, exec mp_load_map_repaired (mp_init inp) = Err e s.
-Proof. exact mp_repaired_propagates. Qed.
-Print Assumptions T_C20_msgpack_repaired_propagates.
+Theorem T_C20_msgpack_propagates : forall inp e, throws mp_load_map (mp_init inp) e -> exists s, mp_run inp = Err e s.
+Proof. exact mp_propagates. Qed.
+Print Assumptions T_C20_msgpack_propagates.
 
-Example T_C20_msgpack_repaired_witness : exists s, exec mp_load_map_repaired (mp_init [0x81%N]) = Err EParse s.
-Proof. exact mp_repaired_witness. Qed.
-Print Assumptions T_C20_msgpack_repaired_witness.
+(* the hypothesis is satisfiable, and the two historical witnesses of F17 now surface as ParsingException *)
+Example T_C20_msgpack_truncated_map_throws : throws mp_load_map (mp_init [0x81%N]) EParse.
+Proof. exact mp_truncated_map_throws. Qed.
+Print Assumptions T_C20_msgpack_truncated_map_throws.
+
+Example T_C20_msgpack_truncated_map_surfaces :
+  (exists s, mp_run [0x81%N] = Err EParse s) /\ (exists s, mp_run [0x81; 0xA1]%N = Err EParse s).
+Proof. exact mp_truncated_map_now_err. Qed.
+Print Assumptions T_C20_msgpack_truncated_map_surfaces.
+
+(* the guard is what makes the difference: the same load with the destructor as it was before the repair *)
+Theorem T_C20_msgpack_unguarded_dtor_terminates :
+  exec mp_load_map_unguarded (mp_init [0x81%N]) = Terminate /\
+  exec mp_load_map_unguarded (mp_init [0x81; 0xA1]%N) = Terminate.
+Proof. exact mp_unguarded_dtor_terminates. Qed.
+Print Assumptions T_C20_msgpack_unguarded_dtor_terminates.
 
 (* the regenerated inventory: the destructors whose bodies call possibly-throwing functions are exactly the listed
    ones (with exactly the listed callees), and none is declared noexcept(false) *)
